@@ -8,7 +8,8 @@ EXTENDS Crypto, Json, TLC, FiniteSets
 CONSTANTS Seed, Family, Tier
 
 CS == INSTANCE CipherSelect WITH Universe <- {}, MaxRecs <- 0, Corruptions <- {}, LastIndex <- 63, G_Bound <- TRUE, G_ShortStop <- TRUE, G_Concat <- TRUE,
-                                recs <- <<>>, corrupt <- "none", data <- <<>>, idx <- 0, acc <- <<>>, pc <- "", nreq <- 0,
+                                recs <- <<>>, corrupt <- "none", data <- <<>>, idx <- 0, acc <- <<>>, pc <- "", nreq <- 0, attempt <- 1, refuseAt <- -1, refused <- FALSE,
+                                Refusals <- {}, G_ErrorOnRefusal <- TRUE, G_FreshBuffer <- TRUE, G_FreshIndex <- TRUE,
                                 result <- [ok |-> FALSE, v |-> <<>>]
 
 Rnd(k, i) == ((k + 3) * 7919 + (i + 1) * 104729 + (Seed + 1) * 1299709 + (k * i) * 31) % 65536
